@@ -281,8 +281,17 @@ let parse_cact toks : cact =
   | [ "E"; k ] -> CEnv (n_of_string k)
   | _ -> failwith "bad cell action"
 
+let parse_hact toks : hact =
+  match toks with
+  | [ "ACQ"; t ] -> HAcquire (n_of_string t)
+  | [ "REL"; t ] -> HRelease (n_of_string t)
+  | [ "LOCK"; t ] -> HLock (n_of_string t)
+  | [ "UNLOCK"; t ] -> HUnlock (n_of_string t)
+  | _ -> failwith "bad hk action"
+
 type mode =
   | MNone
+  | MHk of hact list
   | MCell of ((n, n) gmap) option * int      (* current map (None = already rejected), position *)
   | MConfig
   | MSync of scfg * srun
@@ -322,6 +331,7 @@ let process (ic : in_channel) =
            (match List.assoc_opt "kind" kv with
             | Some "sketch" -> mode := MSketch sk_empty
             | Some "config" -> mode := MConfig
+            | Some "hktrace" -> mode := MHk []
             | Some "celltrace" -> mode := MCell (Some cell_empty, 0)
             | Some "sync" ->
               let c = { sc_cap = opt_of_string (assoc_def "cap" kv "none");
@@ -343,6 +353,14 @@ let process (ic : in_channel) =
            (match !mode with
             | MNone -> failwith "operation before cfg"
             | MDead -> ()
+            | MHk acts ->
+              if toks = [ "END" ] then
+                let tr = List.rev acts in
+                Printf.printf "%d END -> %s\n" !idx
+                  (if hk_accepts_quiescent tr then "accept"
+                   else if hk_accepts tr then "reject: flag or lock still held at the end"
+                   else "reject: flag/lock discipline violated")
+              else mode := MHk (parse_hact toks :: acts)
             | MCell (m, pos) ->
               if toks = [ "END" ] then
                 Printf.printf "%d END -> %s\n" !idx (match m with Some _ -> "accept" | None -> Printf.sprintf "reject at action %d" pos)
